@@ -368,3 +368,67 @@ def declared_shapes(ctx):
     ps = [p for p in it.explore(lambda: acls("module", sh, cs_)) if p.outcome == "return"]
     ctx.oblige("C08/AdditiveCondition.__init__/post/declares_the_given_shapes", len(ps) == 1 and ps[0].value.shape is sh and ps[0].value.cond_shape is cs_ and ps[0].value.module == "module", [], props, kind="struct",
                fn="flowjax.bijections.affine.AdditiveCondition.__init__")
+
+
+@family("shapes/constructors_store_children_as_given", ["C12", "C08", "C13"])
+def constructors_store_children(ctx):
+    """no combinator constructor stores an unwrapped copy of a child: the object kept in the field is the very object passed in
+    (its NonTrainable / reparameterisation wrappers stay in the tree, so frozen leaves stay frozen and constraints stay applied)"""
+    props = ["C12", "C08", "C13"]
+    sh = SymTuple(Seq("s"))
+    unwrapped_marker = []
+
+    def mk_it():
+        it = ctx.new_interp()
+
+        def fake_unwrap(t):
+            # the real unwrap returns a NEW tree; modelled by a distinct stand-in so that storing it is visible
+            u = AbsBij(z3.Const("unwrapped_copy", BIJ), shape=getattr(t, "shape", sh), cond_shape=getattr(t, "cond_shape", None)) if isinstance(t, AbsBij) else ([fake_unwrap(x) for x in t] if isinstance(t, (list, tuple)) else t)
+            unwrapped_marker.append(u)
+            return u
+
+        return it, fake_unwrap
+
+    # ---- Vmap: both ways of giving the axis size
+    q = "flowjax.bijections.jax_transforms"
+    for tag, kw in (("axis_size", dict(axis_size=SV(z3.Int("axis_size")))), ("in_axes", dict(in_axes="in_axes_spec")), ("both", dict(axis_size=SV(z3.Int("axis_size")), in_axes="in_axes_spec")), ("neither", dict())):
+        it, fake_unwrap = mk_it()
+
+        class W:
+            unwrap = staticmethod(fake_unwrap)
+
+        it.global_overrides[q] = {"wrappers": W, "_check_no_unwrappables": lambda spec: None, "_infer_axis_size_from_params": lambda tree, in_axes: SV(z3.Int("inferred_axis_size"))}
+        cls = it.repo_class(f"{q}.Vmap")
+        child = AbsBij(z3.Const("child", BIJ), shape=sh, cond_shape=None)
+        paths = it.explore(lambda: cls(child, **kw))
+        okp = [p for p in paths if p.outcome == "return"]
+        fq = f"{q}.Vmap.__init__"
+        if tag in ("both", "neither"):
+            ctx.oblige(f"C13/Vmap.__init__[{tag}]/post/rejected", len(okp) == 0 and all(p.value.exc == "ValueError" for p in paths), [], props, kind="struct", fn=fq, replay=dict(kind="shapes", cls="Vmap", vars={}))
+            continue
+        ctx.oblige(f"C12/Vmap.__init__[{tag}]/struct/constructs", len(okp) == 1, [], props, kind="applicability", fn=fq)
+        if len(okp) == 1:
+            o = okp[0].value
+            ctx.oblige(f"C12/Vmap.__init__[{tag}]/post/stores_the_child_it_was_given", o.bijection is child, [], props, kind="struct", fn=fq, replay=dict(kind="c12", vars={}),
+                       note="an unwrapped copy would drop NonTrainable / reparameterisation wrappers of the child")
+            if tag == "in_axes":
+                ctx.oblige("C08/Vmap.__init__[in_axes]/post/axis_size_inferred_from_the_mapped_parameters", isinstance(o.axis_size, SV) and o.axis_size.e.eq(z3.Int("inferred_axis_size")), [], props, kind="struct", fn=fq)
+    # ---- Concatenate / Stack / Reshape
+    cq = "flowjax.bijections.concatenate"
+    for cname in ("Concatenate", "Stack"):
+        it, fake_unwrap = mk_it()
+        cls = it.repo_class(f"{cq}.{cname}")
+        kids = [AbsBij(z3.Const(f"k{i}", BIJ), shape=sh, cond_shape=None) for i in range(2)]
+        paths = [p for p in it.explore(lambda: cls(list(kids), 0)) if p.outcome == "return"]
+        ctx.oblige(f"C12/{cname}.__init__/struct/constructs", len(paths) >= 1, [], props, kind="applicability", fn=f"{cq}.{cname}.__init__")
+        for n_, p in enumerate(paths):
+            stored = list(p.value.bijections)
+            ctx.oblige(f"C12/{cname}.__init__/post/stores_the_children_it_was_given#{n_}", len(stored) == 2 and all(a is b_ for a, b_ in zip(stored, kids)), [], props, kind="struct", fn=f"{cq}.{cname}.__init__", replay=dict(kind="c12", vars={}))
+    uq = "flowjax.bijections.utils"
+    it, fake_unwrap = mk_it()
+    cls = it.repo_class(f"{uq}.Reshape")
+    child = AbsBij(z3.Const("child", BIJ), shape=(SV(z3.Int("n")),), cond_shape=None)
+    paths = [p for p in it.explore(lambda: cls(child, None, None)) if p.outcome == "return"]
+    ctx.oblige("C12/Reshape.__init__/struct/constructs", len(paths) >= 1, [], props, kind="applicability", fn=f"{uq}.Reshape.__init__")
+    for n_, p in enumerate(paths):
+        ctx.oblige(f"C12/Reshape.__init__/post/stores_the_child_it_was_given#{n_}", p.value.bijection is child, [], props, kind="struct", fn=f"{uq}.Reshape.__init__", replay=dict(kind="c12", vars={}))
